@@ -242,7 +242,7 @@ def parseRpc (fs : Fields) : Except String Api.Rpc := do
   | "getSnap" => pure (.getSnap (← fstr fs "name"))
   | "listSnaps" => pure (.listSnaps (← fstr fs "project") (← fint fs "size") (← parseToken fs))
   | "deleteSnap" => pure (.deleteSnap (← fstr fs "name"))
-  | "publishCheck" => pure (.publishCheck (← fstr fs "topic"))
+  | "publishCheck" => pure (.publishCheck (← fstr fs "topic") ((fget fs "bad").getD "false" == "true"))
   | k => .error s!"unknown rpc kind {k}"
 
 structure DState where
@@ -287,8 +287,12 @@ def handle (ds : DState) (line : String) : DState × String :=
         match (fget fs "t").bind String.toInt? with
         | none => (ds, "ERROR missing t")
         | some t =>
-          if t != ds.st.now then (ds, s!"MISMATCH kind=time model={ds.st.now} impl={t}")
+          -- a request that failed inside the store may have consumed virtual time in the harness
+          -- (its per-insert clock tick) that the API model does not account for: the clock may only
+          -- run ahead of the model's, never behind
+          if t < ds.st.now then (ds, s!"MISMATCH kind=time model={ds.st.now} impl={t}")
           else
+            let ds := { ds with st := { ds.st with now := t } }
             let (db', resp) := Api.handle ds.st.db ds.st.now r
             let ds' := { ds with st := { ds.st with db := db' } }
             let exp := (fget fs "exp").getD ""
